@@ -255,6 +255,16 @@ def main(ctx, replay=None):
         ok, consumed, res = validate_trace(ctx, "Trace_Sched", "Trace_Sched.cfg", traces[sc], name=f"sched_{sc}",
                                            timeout=1200, libdirs=[scr[sc]])
         if not ok:
+            # The faithful model is shaped like the implementation's work list (queue lengths, duplicate pushes, creation order), which
+            # C04 does not state.  A rejected trace is therefore given to the relaxed specification, which keeps exactly what C04 states
+            # (closure, real edges, dependencies first, reads, look-ups): only if that rejects it too is the run a violation.
+            ok2, consumed2, _ = validate_trace(ctx, "Trace_SchedRelaxed", "Trace_SchedRelaxed.cfg", traces[sc], name=f"sched_relaxed_{sc}",
+                                               timeout=1200, libdirs=[scr[sc]])
+            if ok2:
+                ctx.cov.setdefault("work_list_deviates_from_faithful_model", []).append(
+                    {"scenario": sc, "first_unexplained_event": consumed, "event": traces[sc][consumed]})
+                continue
+            consumed = consumed2
             bad = traces[sc][consumed]
             run_no = next((n for n, (end, _, _) in enumerate(trace_meta[sc]) if consumed < end), -1)
             seq = trace_meta[sc][run_no][1] if run_no >= 0 else None
@@ -271,6 +281,7 @@ def main(ctx, replay=None):
 
     if ctx.tier == "thorough":
         negative_control(ctx, traces)
+        relaxed_controls(ctx, traces, scr)
 
 
 def real_runs(ctx, insts, traces, trace_meta, scr):
@@ -465,6 +476,35 @@ def check_permutations(ctx, rng, sc, inst, case, strain, run):
                               {"scenario": sc, "perm": sigma, "key": [I, J], "strain": strain, "case": case},
                               {"scenario": sc, "clause": "permutation"})
                 break
+
+
+def relaxed_controls(ctx, traces, scr):
+    """The relaxed specification accepts every run the faithful one accepts, and still rejects what C04 forbids."""
+    sc = "generic"
+    tr = traces.get(sc) or []
+    if not tr:
+        return
+    before = ctx.cov["traces_validated_against_impl"]
+    ok, consumed, _ = validate_trace(ctx, "Trace_SchedRelaxed", "Trace_SchedRelaxed.cfg", tr, name="relaxed_pos", timeout=1200, libdirs=[scr[sc]])
+    ctx.cov["traces_validated_against_impl"] = before
+    if not ok:
+        raise MachineryError(f"the relaxed scheduler specification rejects a run the faithful one accepts (event #{consumed}: {tr[consumed]})")
+    from cv.trace import binding_control
+    ev = [n for n, e in enumerate(tr) if e["ev"] == "Eval"]
+    sh = next((n for n in ev if tr[n]["task"].startswith("S")), None)
+    if sh is not None:
+        first = ev[0]
+        cor = [dict(e) for e in tr]
+        cor[first], cor[sh] = cor[sh], cor[first]
+        binding_control(ctx, "Trace_SchedRelaxed", "Trace_SchedRelaxed.cfg", cor, first, lambda e: e, "relaxed_neg_eval", "relaxed_eval_order", libdirs=[scr[sc]])
+    k = next((n for n, e in enumerate(tr) if e["ev"] == "Sort" and any(t.startswith("S") for t in e["order"])), None)
+    if k is not None:
+        def shear_first(e):
+            o = list(e["order"])
+            s_ = next(t for t in o if t.startswith("S"))
+            o.remove(s_)
+            return dict(e, order=[s_] + o)
+        binding_control(ctx, "Trace_SchedRelaxed", "Trace_SchedRelaxed.cfg", tr, k, shear_first, "relaxed_neg_sort", "relaxed_sort_order", libdirs=[scr[sc]])
 
 
 def negative_control(ctx, traces):
